@@ -4237,7 +4237,7 @@ func bracketClose(e ast.Expr) (close token.Pos, empty, bracketed bool) {
 //     trailing form `a & {}, // c` over moving the comment inside the
 //     brackets.
 func commentTrailsBracket(cg *ast.CommentGroup, close token.Pos, empty, bracketed bool) bool {
-	if !bracketed || !empty {
+	if !bracketed {
 		return true
 	}
 	if len(cg.List) > 0 {
